@@ -130,6 +130,7 @@ class Driver:
 
 def run_driver(lines: list[str]) -> list[str]:
     """one-shot: feed all lines, get all outputs"""
+    if not lines: return []
     p = subprocess.run([str(DRV)], input='\n'.join(lines) + '\n', capture_output=True, text=True, timeout=3000)
     out = p.stdout.split('\n')
     if out and out[-1] == '': out.pop()
@@ -171,6 +172,8 @@ class Report:
     def violation(self, what: str, replay: dict):
         self.violations.append({'what': what, **replay})
     def broke(self, kind: str, name: str, detail: str):
+        if os.environ.get('VERIF_DEBUG'):
+            with open(os.environ['VERIF_DEBUG'], 'a') as fh: fh.write(f'### {kind} {name}\n{detail}\n')
         self.broken.append({'kind': kind, 'name': name, 'detail': detail[-3000:]})
 
 
